@@ -469,7 +469,8 @@ func check(c Case, r *rig, wild bool) *kit.Violation {
 			return kit.Failf("%s: request %d (%s): %s; generated-server entry point (BindValidRequest): %s; observed %s (err %v)", c.describe(), i, q.describe(), v, why, gobs, gobs.err)
 		}
 		// the two entry points accept or refuse the same requests and pick the same consumer
-		if (ro.status == 200) != (gobs.status == 200) || ro.status != gobs.status || ro.ran != gobs.ran || fmt.Sprint(ro.calls) != fmt.Sprint(gobs.calls) {
+		// (where the statement fixes the status - 400, 415, no gate - judgeOne has already pinned it for both)
+		if (ro.status == 200) != (gobs.status == 200) || ro.ran != gobs.ran || fmt.Sprint(ro.calls) != fmt.Sprint(gobs.calls) {
 			return kit.Failf("%s: request %d (%s): %s; the entry points disagree: BindAndValidate %s, BindValidRequest %s (err %v)", c.describe(), i, q.describe(), v, ro, gobs, gobs.err)
 		}
 	}
